@@ -33,6 +33,8 @@ def vdi_spec(draw, tier="quick", layer=0, fixed_geometry=None):
     else:
         bits = draw(st.one_of(st.sampled_from([20, 20, 16, 12, 9]), st.integers(9, 22 if tier == "thorough" else 21)))
         bs = 1 << bits
+        if draw(st.integers(0, 5)) == 0:
+            bs = draw(st.sampled_from([1536, 12288, 65536 + 512, 3 * 65536, 3 << 20, 1000 * 512]))  # "every block size": not a power of two
         nb = draw(st.one_of(st.integers(1, 6), st.integers(1, 40), st.sampled_from([1023, 1025, 4097, 9000])))
         tail = draw(st.sampled_from([0, 0, 512, 1024, 4096 + 512, 8192, 8192 + 512, -512]))
         last = bs if tail == 0 else (tail % bs) or bs
@@ -101,7 +103,7 @@ def check(spec) -> Outcome:
     out = Outcome()
     fh, lay, meta = bvdi.build(spec)
     out.nontrivial = nontrivial(spec)
-    out.cls(f"bs=2^{spec['block_size'].bit_length() - 1}", "tail_partial" if spec["disk_size"] % spec["block_size"] else "tail_full")
+    out.cls(f"bs=2^{spec['block_size'].bit_length() - 1}" if spec["block_size"] & (spec["block_size"] - 1) == 0 else "bs=not-a-power-of-two", "tail_partial" if spec["disk_size"] % spec["block_size"] else "tail_full")
     if spec["block_size"] < 8192:
         out.cls("block<buffer")
     if spec.get("parent"):
